@@ -28,6 +28,7 @@ inline void* allocImpl(std::size_t n, std::size_t align, bool nothrow) {
 	++g_alloc.allocs;
 	if (g_alloc.failCountdown && sim::g_fault.armed && --g_alloc.failCountdown == 0) {
 		++g_alloc.injectedFailures;
+		g_alloc.injectionInFlight = true;
 		if (nothrow) return nullptr;
 		throw std::bad_alloc();
 	}
